@@ -24,11 +24,16 @@
 
    The side condition [soks] is syntactic, on the input: nothing after break / continue / fallthrough in
    a statement list; the init statement of a switch / for is absent, a Yield, or an atom that declares
-   nothing; the post statement of a for is absent or an atom; an if-init is absent or an atom.  Outside it:
-     * ':=' initialisers of a rewritten for / switch: the real rewriter hoists them into a fresh block;
-       the model has no such block (its atoms are opaque), so these programs are decided by the check only;
-     * a yielding post statement: the rewriter appends it to the loop body when the body needs no
-       Combine, where it sees the body's declarations — [C03_forpost_refuted] (finding F3);
+   nothing; the post statement of a for is absent, an atom, or a Yield when no statement of the loop body declares
+   anything in the body's own block; an if-init is absent or an atom.  Outside it:
+     * ':=' initialisers of a rewritten switch: the real rewriter hoists them into a fresh block; the model has no
+       such block.  For FOR statements the harness applies that hoisting to the source abstraction
+       ({ x := …; for ; c; post { … } }: [C03_hoisted_initialiser_keeps_scoping] shows it keeps every scope list) and the
+       structural correspondence compares the real output with the model's output for the lowered body;
+     * a yielding post statement of a loop whose body declares names in its own block: the rewriter appends the post
+       statement to the loop body when the body needs no Combine, where it sees the body's declarations —
+       [C03_forpost_refuted] (finding F3); with no such declaration both placements (appended, or in the second half of
+       a Combine) are covered (Scope.v: rw_nd shows the rewritten body still declares nothing in its block);
      * which names a declaring atom declares is assumed to depend on the atom only.  Go's 'x, n := …'
        declares x only if x is not already declared in the SAME block, and the rewriter moves the
        statements after a yield into a new block: [C03_redeclaration_refuted] (finding F24, found
@@ -76,6 +81,14 @@ Theorem C03_pass3_keeps_scoping :
 Proof. exact pass3_body_scope. Qed.
 Print Assumptions C03_pass3_keeps_scoping.
 
+(* the lowering the harness applies for ':=' initialisers of for statements (what pass0 of the real rewriter does with them:
+   { x := …; for ; c; post { … } }) keeps every scope list, so the theorem applies to such loops through the lowered body *)
+Theorem C03_hoisted_initialiser_keeps_scoping :
+  forall (dcl : nat -> bool) (env : list nat) (i : stmt) (c : option nat) (p : option stmt) (b : list stmt),
+    ostmt dcl env (SBlock [i; SFor None c p b]) = ostmt dcl env (SFor (Some i) c p b).
+Proof. exact hoist_scope. Qed.
+Print Assumptions C03_hoisted_initialiser_keeps_scoping.
+
 (* non-vacuity: declarations before and inside a three-clause loop with a yielding body, a switch with a yielding
    clause, break / continue, a yielding block that is not last, return: the side condition holds, the model accepts,
    and the observation is not trivial (atom 37 after the yield in the clause still sees 6, 2, 1; the post statement
@@ -97,6 +110,21 @@ Proof.
   split; [vm_compute; reflexivity|]. split; [|vm_compute; reflexivity].
   destruct (rewrite ex_body) as [out|e] eqn:E; [|vm_compute in E; discriminate].
   exists out. split; [reflexivity|]. apply C03_static_scoping_partial; [vm_compute; reflexivity|exact E].
+Qed.
+
+(* a yielding post statement inside the theorem: both placements the rewriter chooses (appended to a body that needs no
+   Combine; second half of a Combine when the body ends in a yielding statement) *)
+Example C03_example_yielding_post :
+  let body := [SAtom 1; SFor None (Some 2) (Some (SYield 3)) [SAtom 4; SBlock [SAtom 6; SAtom 5]];
+               SFor (Some (SAtom 30)) (Some 7) (Some (SYield 8)) [SAtom 4; SYield 9]; SAtom 10] in
+  soks ex_dcl (map (pass0 400) body) = true /\
+  exists out, rewrite body = OK out /\ ol ex_dcl [] out = ol ex_dcl [] body /\
+              In (OU 3, [1]) (ol ex_dcl [] out) /\ In (OU 8, [1]) (ol ex_dcl [] out).
+Proof.
+  cbv zeta. split; [vm_compute; reflexivity|].
+  destruct (rewrite [SAtom 1; SFor None (Some 2) (Some (SYield 3)) [SAtom 4; SBlock [SAtom 6; SAtom 5]];
+               SFor (Some (SAtom 30)) (Some 7) (Some (SYield 8)) [SAtom 4; SYield 9]; SAtom 10]) as [out|e] eqn:E; [|vm_compute in E; discriminate].
+  exists out. split; [reflexivity|]. vm_compute in E. injection E as <-. repeat split; vm_compute; tauto.
 Qed.
 
 (* finding F3: a yielding post statement (outside [soks]) is appended to the loop body block and sees the body's
